@@ -72,6 +72,7 @@ def judge_cases(ctx, fam, tag="link"):
     for c, v, sig in failures:
         ctx.report_failure(c["id"], {"property": ctx.prop, "case": c["id"], "why": sig, "files": c["prog"].get("files"), "script": c.get("script"),
                                      "expected": {"stdout": v["out"], "status": v["code"]}, "observed": c.get("obs"), "link_order": lk[c["id"]]["order"]}, sig)
+    return res
 
 
 def validate_linked(ctx, cases):
